@@ -274,6 +274,9 @@ def check_duration(ctx, num=3):
         c = chain[0] if chain else c0      # the statement inside suspend_container_tick that leads to the transition
         fs = gt.facts_at(c)
         zero = norm.entails(fs, norm.mk_cmp("==", "0", "self._suspend_ticks_left"))
+        # `<= 0` / `< 1` is the same test here: the count-down is armed at >= 1 (#3), goes down by exactly one per suspending tick and is tested right
+        # after each decrement (the three obligations above), so the first tick in which it is `<= 0` is the tick in which it is 0
+        zero = zero or any(norm.entails(fs, norm.nnf(ast.parse(t_, mode="eval").body)) for t_ in ("self._suspend_ticks_left <= 0", "self._suspend_ticks_left < 1"))
         after_dec = bool(decs) and gt.dominates(decs[0], c)
         ctx.ob(6, "K2", "operators are handed back (PENDING) exactly in the tick in which the count-down reaches 0", st == "PENDING" and zero and after_dec,
                tick, c, detail=f"state {st}; guarded by _suspend_ticks_left == 0: {zero}; after the decrement: {after_dec}")
@@ -287,13 +290,17 @@ def check_duration(ctx, num=3):
         if lp is not None:
             IN = gt.facts(blocked={gt.node_of(lp).id})
             ex = IN.get(gt.exit.id)
-            ok = ex is None or norm.entails(ex, norm.mk_cmp("!=", "0", "self._suspend_ticks_left"))
+            ok = ex is None or norm.entails(ex, norm.mk_cmp("!=", "0", "self._suspend_ticks_left")) \
+                or any(norm.entails(ex, norm.nnf(ast.parse(t_, mode="eval").body)) for t_ in ("self._suspend_ticks_left > 0", "self._suspend_ticks_left >= 1"))
             ctx.ob(6, "K2", "whenever the count-down reaches 0 the unfinished operators are handed back", ok, tick, lp,
                    detail="paths that skip the hand-back carry _suspend_ticks_left != 0" if ok else "the hand-back can be skipped with the count-down at 0")
     isf = P.fn(CT, "Container.is_suspended")
     ctx.touch(isf)
     rs = [r for r in own_nodes(isf.node) if isinstance(r, ast.Return)]
-    ok = len(rs) == 1 and rs[0].value is not None and norm.nnf(rs[0].value) == norm.mk_cmp("==", "0", "self._suspend_ticks_left")
+    ok = len(rs) == 1 and rs[0].value is not None and norm.nnf(rs[0].value) in (
+        norm.mk_cmp("==", "0", "self._suspend_ticks_left"),
+        # the count-down starts at >= 1, goes down by one per tick and is never advanced past 0 (this clause, above): `<= 0` / `< 1` say the same
+        norm.nnf(ast.parse("self._suspend_ticks_left <= 0", mode="eval").body), norm.nnf(ast.parse("self._suspend_ticks_left < 1", mode="eval").body))
     ctx.ob(num, "K5", "is_suspended() is exactly `_suspend_ticks_left == 0` (the same test as the hand-back)", ok, isf, rs[0] if rs else isf.node,
            detail=f"{[stmt_text(r) for r in rs]}")
     # the pool ticks every suspending container exactly once per tick, before testing is_suspended
